@@ -2,6 +2,8 @@ package gateway
 
 import (
 	"context"
+	"sort"
+	"strings"
 
 	"github.com/99designs/gqlgen/graphql/introspection"
 	"github.com/mitchellh/mapstructure"
@@ -99,7 +101,7 @@ func (g *Gateway) Query(ctx context.Context, input *graphql.QueryInput, receiver
 
 			// look for the type with the designated name
 			var introspectedType *introspection.Type
-			for _, schemaType := range introspectionSchema.Types() {
+			for _, schemaType := range g.introspectedTypes(introspectionSchema) {
 				if *schemaType.Name() == name {
 					schemaTypeCopy := schemaType // copy loop var
 					introspectedType = &schemaTypeCopy
@@ -304,7 +306,7 @@ func (g *Gateway) introspectSchema(schema *introspection.Schema, selectionSet as
 		case introspectDescription:
 			result[field.Alias] = schema.Description()
 		case "types":
-			result[field.Alias] = g.introspectTypeSlice(schema.Types(), field.SelectionSet)
+			result[field.Alias] = g.introspectTypeSlice(g.introspectedTypes(schema), field.SelectionSet)
 		case "queryType":
 			result[field.Alias] = g.introspectType(schema.QueryType(), field.SelectionSet)
 		case "mutationType":
@@ -388,6 +390,25 @@ func (g *Gateway) introspectType(schemaType *introspection.Type, selectionSet as
 		}
 	}
 	return result
+}
+
+// introspectedTypes returns every type of the schema. The reflection wrapper leaves out the types of the
+// introspection system itself (__Schema, __Type, ...), which are part of the schema like any other type.
+func (g *Gateway) introspectedTypes(schema *introspection.Schema) []introspection.Type {
+	types := schema.Types()
+
+	names := []string{}
+	for name := range g.schema.Types {
+		if strings.HasPrefix(name, "__") {
+			names = append(names, name)
+		}
+	}
+	sort.Strings(names)
+	for _, name := range names {
+		types = append(types, *introspection.WrapTypeFromDef(g.schema, g.schema.Types[name]))
+	}
+
+	return types
 }
 
 // interfacesOf returns the interfaces that an object or an interface type implements
